@@ -1422,6 +1422,10 @@ pub fn l4_program(c: &L4) -> Option<Vec<I>> {
     Some(p)
 }
 
+fn l4_valid(c: &L4) -> bool {
+    l4_program(c).is_some()
+}
+
 pub fn l4_cases(thorough: bool, eng: Eng) -> Vec<L4> {
     let mut v = vec![];
     let sizes: Vec<usize> = match (thorough, eng) {
@@ -1430,7 +1434,12 @@ pub fn l4_cases(thorough: bool, eng: Eng) -> Vec<L4> {
         (true, _) => vec![40_000, 70_000, 1_000_000],
     };
     for n in sizes {
-        let ps = [5usize, 127, 128, 32766, 32767, 32768, 65534, 65535, 65536, n - 10, n / 2];
+        let ps: Vec<usize> = if !thorough && eng == Eng::Cl {
+            // Cranelift lays out its own code: the quick tier keeps the positions at the 2^15 / 2^16 marks and the ends
+            vec![5, 32767, 32768, 65535, 65536, n - 10, n / 2]
+        } else {
+            vec![5, 127, 128, 32766, 32767, 32768, 65534, 65535, 65536, n - 10, n / 2]
+        };
         let ds = [0i32, 1, 127, 128, 32767, -2, -129, -130, -32768, 5000, -5000];
         for p in ps {
             if p >= n - 2 {
@@ -1480,6 +1489,8 @@ pub fn run_layer4(s: &mut Sink, eng: Eng, g: &mut u64) {
     let thorough = s.tier == Tier::Thorough;
     let cases = l4_cases(thorough, eng);
     s.meta.insert("layer4".into(), json!({"programs_planned": cases.len(), "lengths": if thorough {"40000, 70000, 1000000"} else {"70000"}}));
+    // only the cases that yield a program are numbered, so that the shards get equal shares of them
+    let cases: Vec<L4> = cases.into_iter().filter(|c| l4_valid(c)).collect();
     for c in cases {
         let idx = *g;
         *g += 1;
@@ -1489,9 +1500,6 @@ pub fn run_layer4(s: &mut Sink, eng: Eng, g: &mut u64) {
         if s.expired() {
             s.cut("layer 4: distance");
             return;
-        }
-        if l4_program(&c).is_none() {
-            continue;
         }
         let rp = json!({"kind":"isa-l4","eng":eng.name(),"n":c.n,"p":c.p,"d":c.d,"variant":c.variant});
         s.mark(idx, &format!("{}/far", eng.name()), &rp);
